@@ -1053,6 +1053,7 @@ package ucfg
 
 //@ iface value.meta :: self -> r
 //@ pure
+//@ ensures r == metaof(self)
 
 // ---------------------------------------------------------------- C08: the set of references under evaluation
 
@@ -1347,3 +1348,35 @@ package ucfg
 //@ props C11
 //@ nonil
 //@ modifies cell(l), cell(err)
+
+// ---------------------------------------------------------------- C12 / C14: writing through a path
+
+//@ ghost func didSet(f field, elem value, v value) bool
+
+//@ iface field.SetValue :: self, opt, elem, v -> err
+//@ modifies tree(cfgEval(elem)), obj(v)
+//@ ensures err == nil ==> didSet(self, elem, v)
+
+//@ func isNil :: v -> r
+//@ trusted
+//@ pure
+//@ ensures v == nil ==> r
+
+//@ func (cfgPath).SetValue :: p, cfg, opt, val -> err
+//@ props C12 C07
+//@ uses cfgsub
+//@ requires cfg != nil && val != nil && len(p.fields) >= 1
+//@ requires forall j int :: 0 <= j && j < len(p.fields) ==> p.fields[j] != nil
+//@ modifies *
+//@ ensures [typed @C12] isTyped(err)
+//@ loop 1 invariant len(fields) >= 1
+//@ loop 1 invariant len(fields) <= len(p.fields)
+//@ loop 1 invariant base(fields) == base(p.fields)
+//@ loop 1 invariant forall j int :: 0 <= j && j < len(fields) ==> fields[j] != nil
+//@ loop 1 invariant node != nil
+//@ loop 1 invariant val == entry(val)
+//@ loop 1 decreases len(fields)
+//@ loop 2 invariant len(fields) >= 1
+//@ loop 2 invariant forall j int :: 0 <= j && j < len(fields) ==> fields[j] != nil
+//@ loop 2 invariant val != nil && node != nil
+//@ loop 2 decreases len(fields)
